@@ -88,8 +88,19 @@ class AArr(object):
             return lambda o: self._matmul(o)
         if name == 'nonzero':
             raise CheckerError('nonzero() needs a contract')
-        if name == 'max' or name == 'min':
-            return lambda *a, **k: P.atom('%s(%s)' % (name, self.term))
+        if name == 'max' or name == 'min' or name == 'sum' and False:
+            def red(*a, **k):
+                axis = k.get('axis', a[0] if a else None)
+                if axis is None:
+                    return P.atom('%s(%s)' % (name, self.term))
+                if not isinstance(axis, int) or not (-len(self.shape) <= axis < len(self.shape)):
+                    raise CheckerError('%s(axis=%r) needs a contract' % (name, axis))
+                axis = axis % len(self.shape)
+                shp = self.shape[:axis] + self.shape[axis + 1:]
+                if not shp:
+                    return P.atom('%s(%s)' % (name, self.term))
+                return AArr(shp, (name, axis, self.term), self.kind)
+            return red
         if name == 'conj':
             return lambda: AArr(self.shape, ('conj', self.term), self.kind)
         if name == 'data':
@@ -128,11 +139,20 @@ class AArr(object):
         itp = AArr.interp
         if len(self.shape) != len(o.shape):
             raise CheckerError('broadcast between ranks %d and %d' % (len(self.shape), len(o.shape)))
+        shp = []
         for a, b in zip(self.shape, o.shape):
+            # numpy broadcasting: a dimension of length one is stretched
+            if isinstance(b, int) and b == 1:
+                shp.append(a)
+                continue
+            if isinstance(a, int) and a == 1:
+                shp.append(b)
+                continue
             c = dim_eq(a, b)
             if not itp.truth(c):
                 raise SymRaise('ValueError', ('operands could not be broadcast together with shapes %s %s' % (T(self.shape), T(o.shape)),))
-        return AArr(self.shape, (op, T(o) if swapped else self.term, self.term if swapped else T(o)), 'complex' if 'complex' in (self.kind, o.kind) else self.kind)
+            shp.append(a)
+        return AArr(tuple(shp), (op, T(o) if swapped else self.term, self.term if swapped else T(o)), 'complex' if 'complex' in (self.kind, o.kind) else self.kind)
 
     def _matmul(self, o):
         itp = AArr.interp
@@ -233,6 +253,21 @@ class AArr(object):
 
     def sym_load(self, itp, k, node):
         ks = k if isinstance(k, tuple) else (k,)
+        if any(kk is None for kk in ks):
+            # numpy.newaxis: a[:, None], a[None, :] ... (the other entries must be full slices)
+            if not all(kk is None or kk == slice(None) for kk in ks if not isinstance(kk, (P, AArr))) or any(isinstance(kk, (P, AArr)) for kk in ks):
+                raise CheckerError('line %d: newaxis mixed with other indices needs a contract' % getattr(node, 'lineno', 0))
+            shp, ax = [], 0
+            for kk in ks:
+                if kk is None:
+                    shp.append(1)
+                else:
+                    if ax >= len(self.shape):
+                        raise SymRaise('IndexError', ('too many indices',), node)
+                    shp.append(self.shape[ax])
+                    ax += 1
+            shp += list(self.shape[ax:])
+            return AArr(tuple(shp), ('newaxis', tuple(i for i, kk in enumerate(ks) if kk is None), self.term), self.kind)
         if len(ks) > len(self.shape):
             raise SymRaise('IndexError', ('too many indices',), node)
         shp, terms = [], []
